@@ -29,7 +29,15 @@ MANIFEST = {
             "service, application or file-system step) and no software or scan clock moves however long it stays not ON, while "
             "every statement of pre_timestep runs regardless (counter resets, user-session time-outs); (7) on reaching ON every "
             "linked interface is enabled and RUNNING/PAUSED/STOPPED services and RUNNING/CLOSED applications are RUNNING, DISABLED / "
-            "RESTARTING / INSTALLING software is left as it was (exact, service by service). Tie: Gen/Power.lean (enum, defaults, "
+            "RESTARTING / INSTALLING software is left as it was (exact, service by service); (8) ONE composite timing theorem: a timed "
+            "power cycle (shutdown, d_s ticks, one tick, any wait, startup, d_u ticks, one tick, arbitrary other requests/frames "
+            "interleaved) visits exactly SHUTTING_DOWN, OFF, BOOTING, ON with four assignments and the exact tick numbers, and reset = "
+            "the same with the automatic start; (9) startup is accepted iff the node is OFF (validators translated by meaning); "
+            "(10) the direct API: the exact transition table of power_on/power_off/reset from every state and the exact condition "
+            "under which a direct call leaves the state machine; (11) a frame reaches a node's receive_frame / session manager / "
+            "software manager / software receive only through an interface's hand-over under `if self.enabled` (cut theorem over the "
+            "regenerated table of all hand-over calls), hence a non-ON node processes no traffic; (12) user-session time-outs are a "
+            "function of the sessions and the time alone (modelled; agrees with C16's model; logins refused while not ON). Tie: Gen/Power.lean (enum, defaults, "
             "statement shape of the power methods, guarded statement lists of apply_timestep and pre_timestep, interface guards and "
             "every enable/disable definition, validators, route tables per class, inventories of every class below Node and "
             "NetworkInterface, the power-relevant statements of constructors/loader/set-up, every power_on/power_off call site, "
@@ -51,7 +59,7 @@ MANIFEST = {
                  "power model; model tied by regenerated tables/shapes/inventories and a differential rig",
     "design_ref": "5/C12",
 }
-MODULES = ["PrimaiteModel.Props.C12", "PrimaiteModel.Props.C12Deep"]
+MODULES = ["PrimaiteModel.Props.C12", "PrimaiteModel.Props.C12Deep", "PrimaiteModel.Props.C12Cycle"]
 EXE = "drv_c12"
 TAIL = [{"op": "tick"}, {"op": "ping", "src": 1, "dst": 0}, {"op": "tick"}, {"op": "tick"}, {"op": "tick"}, {"op": "tick"},
         {"op": "ping", "src": 1, "dst": 0}, {"op": "ping", "src": 0, "dst": 1}]
@@ -77,7 +85,7 @@ def _diff_sig(case: dict, lines: List[str], impl: List[str], model: List[str], i
     w = lines[i].split() if 0 <= i < len(lines) else ["?"]
     op = w[0] + (":" + w[2] if w[0] == "req" and len(w) > 2 else "")
     cls = "?"
-    if w[0] in ("req", "tick", "in", "api", "setdur", "setup") and len(w) > 1 and w[1].isdigit():
+    if w[0] in ("req", "tick", "in", "api", "setdur", "setup", "login", "sesscfg") and len(w) > 1 and w[1].isdigit():
         cls = case["nodes"][int(w[1])]["cls"]
     elif w[0] == "load" and len(w) > 1:
         cls = w[1]
@@ -138,6 +146,8 @@ def _run_impl_all(cases: List[dict], workers: int):
 
 # ------------------------------------------------------------------------------------------------ the check
 def run(ctx: Ctx):
+    import time
+    t0 = time.time()
     with lean_lock():
         ctx.extract("Power", x_power.emit)
         ctx.extract("RequestSchema", x_schema.emit)
@@ -167,6 +177,7 @@ def run(ctx: Ctx):
     except Exception as e:
         ctx.oblige("gen:classTables = live request managers", "correspondence", False, f"{type(e).__name__}: {e}")
 
+    t_prove = time.time() - t0
     cases: List[Tuple[str, dict]] = []
     for f in sorted((VERIF / "corpus" / "C12").glob("*.json")):
         cases.append(("corpus:" + f.name, json.loads(f.read_text())["case"]))
@@ -186,13 +197,16 @@ def run(ctx: Ctx):
                 cases.append((f"exh{depth_all + 1}:{u},{d}:{k}", c))
     # --- every node class under test between peers: bounded-exhaustive over the class's own 7-letter alphabet
     cls_depth = ctx.scale(2, 3)
-    cls_durs = all_durs if ctx.thorough else [(u, d) for (u, d) in all_durs if u != 2 and d != 2]   # quick: {0,1,3}²
+    # quick: {0,1,3}² without (1,1) and (3,3)
+    cls_durs = all_durs if ctx.thorough else [(u, d) for (u, d) in all_durs if u != 2 and d != 2 and (u, d) not in ((1, 1), (3, 3))]
     for cls in rig.ALL_CLASSES:
         if cls == "computer":
             continue  # the pair family above
         for (u, d) in cls_durs:
             for k, c in enumerate(rig.exhaustive_cls(cls, cls_depth, u, d)):
                 cases.append((f"clsexh{cls_depth}:{cls}:{u},{d}:{k}", c))
+        if not ctx.thorough and cls in ("printer", "server"):
+            continue  # quick: the deeper family on one host class besides computer (host-node); all host classes share HostNode's code
         for k, c in enumerate(rig.exhaustive_cls(cls, cls_depth + 1, 0, 0)):
             cases.append((f"clsexh{cls_depth + 1}:{cls}:0,0:{k}", c))
     # --- random: two hosts, the six-class network, every class (requests only / with direct API calls and duration changes),
@@ -213,7 +227,9 @@ def run(ctx: Ctx):
         cases.append((f"sess:{k}", rig.gen_sessions(rng)))
 
     workers = int(os.environ.get("C12_WORKERS", "0")) or max(1, min(14, (os.cpu_count() or 2) - 2))
+    t1 = time.time()
     results = _run_impl_all([c for _, c in cases], workers)
+    t_impl = time.time() - t1
     lines_all: List[str] = []
     bounds = []
     for (name, case), (lines, impl, oracle, fe, err) in zip(cases, results):
@@ -221,7 +237,10 @@ def run(ctx: Ctx):
             raise RuntimeError(f"rig failed on {name}: {err}")
         bounds.append((len(lines_all), len(lines)))
         lines_all += lines
+    t2 = time.time()
     model_all = run_driver(EXE, lines_all, timeout=3000)
+    t_model = time.time() - t2
+    t3 = time.time()
     agree = 0
     oracle_bad = 0
     reported = set()
@@ -258,6 +277,8 @@ def run(ctx: Ctx):
                 ctx.count(f"work:{'ON' if st_after == 'ON' else 'not-ON'}:{work_tags or 'none'}")
             elif w[0] in ("ping", "in", "pingpath"):
                 ctx.count(f"{w[0]}:{m}")
+            elif w[0] == "login":
+                ctx.count(f"login:{w[3]}:{m.split()[0]}")
             elif w[0] == "api":
                 ctx.count(f"api:{w[2]}")
                 if " h=- " not in m:
@@ -312,7 +333,10 @@ def run(ctx: Ctx):
                f"{len(cases) - agree} of {len(cases)} traces disagree or fail an oracle; not reproduced alone: {json.dumps(unstable)[:1500]}")
     ctx.notes.append(f"cases={len(cases)} lines={len(lines_all)} workers={workers} exhaustive depth {depth_all} over 16 duration pairs"
                      + (f", depth {depth_all + 1} over {deeper}" if ctx.thorough else "")
-                     + f"; class family: depth {cls_depth} over {len(cls_durs)} duration pairs + depth {cls_depth + 1} at (0,0), 7 classes")
+                     + f"; class family: depth {cls_depth} over {len(cls_durs)} duration pairs (7 classes) + depth {cls_depth + 1} at (0,0) "
+                     f"({7 if ctx.thorough else 5} classes)")
+    ctx.notes.append(f"wall: extract+prove+audit+cross-checks {t_prove:.0f}s, implementation side {t_impl:.0f}s ({workers} workers), "
+                     f"model driver {t_model:.0f}s, comparison {time.time() - t3:.0f}s")
     ctx.notes.append("node classes under test (cases): " + ", ".join(
         f"{c}={ctx.hist.get('under-test:' + c, 0) + (ctx.hist.get('family:exh' + str(depth_all), 0) if c == 'computer' else 0)}"
         for c in rig.ALL_CLASSES))
